@@ -42,7 +42,11 @@ func (c *Check) corpus(n int) []gen.GenDoc {
 		docs = append(docs, cov[i])
 	}
 	for i := 0; len(docs) < n-n/10; i++ {
-		docs = append(docs, gen.PagerDoc(uint64(0x9A6E+i*31)))
+		if i%2 == 0 {
+			docs = append(docs, gen.PagerDoc(uint64(0x9A6E+i*31)))
+		} else {
+			docs = append(docs, gen.BoundaryDoc(uint64(0xB0D7+i*17)))
+		}
 	}
 	for i := 0; len(docs) < n; i++ {
 		d := gen.Document(uint64(0xC0FFEE + i*7919))
